@@ -54,3 +54,27 @@ check(
     "Trusted: TLC, Json, the BudgetIn/BudgetOut wrappers (BaseException budgets), observation projection. stty/hidden/autocomplete path not exercised (subprocess stubbed); attempt limit 0 and non-ASCII answers outside. 'one error' = one stderr line in the error style per rejected entry.",
     "DESIGN.md#C18",
 )
+check(
+    "C05",
+    ["ArgsParser", "ArgsParserTrace"],
+    "Two instances of the ArgsParser model in one TLC state (long-lived parser object vs. fresh one, INSTANCE with variable substitution), invariant SameAsFresh over all request sequences; the variant that keeps the option scratch map must violate it; sequences replayed on one real DefaultArgsParser; random sequences decided by ArgsParserTrace.tla",
+    "TLC runs every sequence of 2 (quick) / 3 (thorough) requests out of 54 (3 formats sharing option names x 2 modes x 9 lines, successes and failures mixed) on the long-lived and the fresh parser model and checks equality of outcomes; the model of the pinned defect (options not reset) is required to violate the invariant, which keeps the check from being vacuous; each sequence is replayed on one real parser object and compared request by request with the model, with a fresh real parser, and for untouched inputs (argv list, raw tokens, format listings); 400/8000 random sequences of 1-6 requests over the typed soup formats are decided by TLC.",
+    "Trusted: TLC (INSTANCE substitution), argslib.event. 'Fresh parser' = DefaultArgsParser() per request. Parser reuse through Config.set_args_parser/Command.parse is exercised by C17's application runs.",
+    "DESIGN.md#C05",
+)
+check(
+    "C10",
+    ["OutputGate", "OutputGateTrace"],
+    "TLA+ model of the output gate (P: MayWrite = not quiet and verbosity >= lowest requested level, ClosedSilent / OpenShows / NeverLeaks / Monotone; A: _may_write chain, delegation table, section re-emission) checked by TLC; every entry point found by reflection x quiet x verbosity x flag word x formatter x stream kind called on the real classes; sequences replayed; random sequences decided by OutputGateTrace.tla",
+    "Exhaustive over the stated quantifier: every public writing entry point discovered by reflection on IO/BufferedIO/ConsoleIO/NullIO/Output/SectionOutput is called for each of 2 x 4 x 9 configurations on dozens of concrete realizations (formatter x stream kind), TLC deciding reached-the-stream = MayWrite; TLC also checks NeverLeaks and Monotone over all configurations and all operation sequences of length 3 (quick) / 4 (thorough) incl. several sections on one stream; the pinned-tree variant (Repaired = FALSE) must be found faulty by TLC.",
+    "Trusted: TLC, the reflection rule (public methods named write*/error*/overwrite/clear or taking flags), recording streams. NullIO().section() and Output(ansi stream, NullFormatter()) are not constructible and reported without verdict.",
+    "DESIGN.md#C10",
+)
+check(
+    "C11",
+    ["Markup", "OutputGate", "MarkupTrace"],
+    "TLA+ models of the tag engine (Markup: P TextOf/Sgr/terminal-side fold; A pastel's tag loop) and of line writers + indentation scopes (OutputLines) checked by TLC; all messages / all 12 800 styles x 3 ways / all scope programs replayed on AnsiFormatter, PlainFormatter, Output, IO, SectionOutput; recorded renderings decided by MarkupTrace.tla / OutputLinesTrace.tla",
+    "TLC enumerates every balanced message up to 4 (quick) / 6 (thorough) segments over named, inline and unknown tags, escaped '<', newlines and a non-ASCII stand-in and checks Strip(Ansi) = Plain = TextOf and no escape byte / registered markup in plain output; every style (10 x 10 x 2^7, thorough; a sample in quick) through registration, add_style and per-call style is compared code-by-code with Sgr(style); every nesting (depth <= 3/4) of set/increment indentation scopes at IO and single-output level with normal and exceptional exit is replayed, TLC deciding prefix and restoration; every line-writing method found by reflection must emit text + exactly one newline in ANSI and plain mode.",
+    "Trusted: TLC, SGR tokeniser of the driver, reflection rule for line writers. Readings: balanced tags only; raw line writers may indent or not; colour table = 16-colour convention of the backend. Pastel quirks outside the message family are listed in docs/notes_C11.md.",
+    "DESIGN.md#C11",
+)
